@@ -47,9 +47,9 @@ def make_skeleton(spec):
         return Skeleton('c16#%s|composed:%s|top' % (','.join(codes), lab), src, [], {'resolve_type': True}, tsx=True, meta={'family': 'c16/composed'})
     enc = [e for e in rt.encodings(codes) if e[0] == spec['enc']][0]
     name, before, texpr, after, expected = enc
-    call = ('export default ' if spec.get('scope') != 'local' else '') + 'defineComponent(%s);' % (SETUPS[spec.get('setup', 'arrow')] % texpr)
+    call = ('export default ' if spec.get('scope', 'top') == 'top' else '') + 'defineComponent(%s);' % (SETUPS[spec.get('setup', 'arrow')] % texpr)
     shadow = ''
-    if spec.get('scope') == 'local':
+    if spec.get('scope', 'top') != 'top':
         shadow = 'interface P {{ shadowed: number }}\ntype PA = {{ shadowedA: number }};\ninterface Outer {{ p: {{ shadowedO: number }} }}\n'
     src = rt.module_src('EXPECT', expected, before, call, after, spec.get('scope', 'top'), shadow)
     return Skeleton('c16#%s|%s|%s%s' % (','.join(codes), name, spec.get('scope', 'top'), '|setup:' + spec['setup'] if 'setup' in spec else ''), src, [], {'resolve_type': True}, tsx=True, meta={'family': 'c16/' + name})
@@ -102,6 +102,9 @@ def jobs(tier):
             out.append({'map': mp, 'enc': e[0]})
             if e[0] in ('alias', 'interface', 'merged', 'extends', 'intersection', 'indexed', 'after-interface', 'partial', 'pick') and (tier != 'quick' or mp in (MAPS[1], MAPS[2])):
                 out.append({'map': mp, 'enc': e[0], 'scope': 'local'})
+                if (mp == MAPS[2] or tier != 'quick') and 'export ' not in e[1] + e[3]:
+                    for sc in ('local-stmt', 'local-mid', 'local-directive', 'block'):
+                        out.append({'map': mp, 'enc': e[0], 'scope': sc})
     for mp in (MAPS[1], MAPS[2], MAPS[3]) if tier == 'quick' else MAPS[1:]:
         for ch in ('iface', 'alias', 'alias-top'):
             out.append({'map': mp, 'chain': ch})
@@ -141,7 +144,7 @@ def classify(v, detail):
 def main(argv):
     rep = common.Report(PROP)
     js = jobs(rep.tier)
-    rep.bounds = {'prop_maps': MAPS, 'setup_function_forms': sorted(SETUPS), 'encodings': [e[0] for e in rt.encodings(MAPS[2])], 'scopes': ['top level', 'inside a function, shadowing different top-level declarations of the same names']}
+    rep.bounds = {'prop_maps': MAPS, 'setup_function_forms': sorted(SETUPS), 'encodings': [e[0] for e in rt.encodings(MAPS[2])], 'scopes': ['top level', 'inside a function, shadowing different top-level declarations of the same names', 'the same with a call / a directive / a let and an if statement among the local declarations', 'a block statement of the module']}
     rep.assumptions = ['the expectation (prop map an encoding stands for) is carried in the module as a comment written by the generator']
     res = common.run_jobs('mirsym.checks.elements', 'run_family_job', js)
     raw = []
